@@ -27,6 +27,7 @@ def sh(cmd, **kw):
 def main():
     prop = sys.argv[1]
     out = sys.argv[2] if len(sys.argv) > 2 else "/tmp/seed_%s_out" % prop
+    prefix = sys.argv[3] if len(sys.argv) > 3 else ""      # e.g. "r2": second seeding round, kept as r2m1, r2m2, ...
     head = sh("git -C /repo rev-parse --short HEAD").stdout.strip()
     for name in sorted(os.listdir(out)):
         d = os.path.join(out, name)
@@ -59,7 +60,7 @@ def main():
               and rec.get("demo_modified_exit") == 1 and rec.get("suite_ok"))
         print(prop, name, "CONFIRMED" if ok else "REJECTED", json.dumps({k: v for k, v in rec.items() if k != "demo_modified_output"}))
         if ok:
-            dst = os.path.join(VERIF, "seeded", prop, name)
+            dst = os.path.join(VERIF, "seeded", prop, prefix + name)
             os.makedirs(dst, exist_ok=True)
             shutil.copy(os.path.join(d, "patch.diff"), dst)
             shutil.copy(os.path.join(d, "demo.py"), dst)
